@@ -118,6 +118,15 @@ def extra_events(ctx):
         body = build.read_packets(bytes(sig))[0][1]
         ev.append({'k': 'idfield', 'label': label, 'kind': 'signature', 'body': octets(body), 'fpr': octets(bytes.fromhex(str(comp.fingerprint))),
                    'verifies': bool(pub.verify('x', sig))})
+    # options that put OTHER keys' fingerprints into the signature (intended recipients, a designated revoker) must not change who is named
+    # as issuer
+    others = [K.new_key('ed25519', name='Recipient %d' % j_, email='r%d@x.org' % j_) for j_ in range(2)]
+    sig_ir = k.sign('x', created=K.ts(K.T0 + 9), intended_recipients=[o_.pubkey for o_ in others])
+    ev.append({'k': 'idfield', 'label': 'primary signs with two intended recipients', 'kind': 'signature', 'body': octets(build.read_packets(bytes(sig_ir))[0][1]),
+               'fpr': octets(bytes.fromhex(str(k.fingerprint))), 'verifies': bool(pub.verify('x', sig_ir))})
+    sig_ir2 = subs[0].sign('x', created=K.ts(K.T0 + 9), intended_recipients=[others[1].pubkey, k.pubkey, others[0].pubkey])
+    ev.append({'k': 'idfield', 'label': 'subkey signs with intended recipients', 'kind': 'signature', 'body': octets(build.read_packets(bytes(sig_ir2))[0][1]),
+               'fpr': octets(bytes.fromhex(str(subs[0].fingerprint))), 'verifies': bool(pub.verify('x', sig_ir2))})
     em = pub.encrypt(pgpy.PGPMessage.new('y'))
     body = next(b for t, b, r in build.read_packets(bytes(em)) if t == 1)
     ev.append({'k': 'idfield', 'label': 'encrypted to the encryption subkey', 'kind': 'pkesk', 'body': octets(body), 'fpr': octets(bytes.fromhex(str(subs[1].fingerprint))),
